@@ -2,6 +2,8 @@
 
 package fsnotify
 
+import "time"
+
 // VerifInotifyFd returns the inotify descriptor number of w, or -1.
 func VerifInotifyFd(w *Watcher) int {
 	b, ok := w.b.(*inotify)
@@ -48,4 +50,17 @@ func VerifInotifyRenamePair(oldName, newName string) Event {
 	b := &inotify{}
 	b.newEvent(oldName, 0x40, 4242) // IN_MOVED_FROM
 	return b.newEvent(newName, 0x80, 4242)
+}
+
+// VerifInotifyReadFault makes the next Read on the inotify file fail (on=true:
+// a read deadline in the past) or lets reads proceed again (on=false).
+func VerifInotifyReadFault(w *Watcher, on bool) error {
+	b, ok := w.b.(*inotify)
+	if !ok {
+		return nil
+	}
+	if on {
+		return b.inotifyFile.SetReadDeadline(time.Unix(1, 0))
+	}
+	return b.inotifyFile.SetReadDeadline(time.Time{})
 }
